@@ -94,7 +94,11 @@ def gen_hand(rng):
         return M.Outer.Inner(v=rng.choice([None, 0, 5]), deep=rng.choice([None, M.Outer.Inner.Deep.X, M.Outer.Inner.Deep.Y]),
                              deeps=[rng.choice(list(M.Outer.Inner.Deep)) for _ in range(rng.randrange(0, 3))])
 
-    kind = rng.randrange(4)
+    kind = rng.randrange(5)
+    if kind == 4:
+        pick = lambda *xs: rng.choice(xs)  # noqa: E731
+        return M.Defaults(lang=pick(None, "en", "fr", ""), indent=pick(None, 2, 0), ratio=pick(None, 1.5, 0.0), tags=pick(None, [], ["a"]), color=pick(None, *list(M.Color)),
+                          when=pick(None, XmlDate(2020, 1, 1), XmlDate(1999, 12, 31)), inner=pick(None, M.Outer.Inner(), inner()))
     if kind == 0:
         return M.Outer(kind=rng.choice([None, M.Outer.Kind.A, M.Outer.Kind.B]), kinds=[rng.choice(list(M.Outer.Kind)) for _ in range(rng.randrange(0, 3))],
                        inner=rng.choice([None, inner()]), inners=[inner() for _ in range(rng.randrange(0, 3))], color=rng.choice(list(M.Color)),
